@@ -22,7 +22,7 @@ ASSUMPTIONS = [
     "UTF-8 validation by the NVX C validator is outside the claim (AUTOBAHN_USE_NVX=0)",
 ]
 BOUNDS = {
-    "quick": "free octets per stream <= 6 (all 65536 values of the first two header octets in every context: role x failByDrop x {outside,inside text,inside binary message} x compression on/off), 13 stream templates (extended 16/64-bit lengths, close payloads with free code and reason, fragmented text with free octets, ping inside a fragmented message), feeding whole / octet-wise / one cut at every position",
+    "quick": "free octets per stream <= 6 (all 65536 values of the first two header octets in every context: role x failByDrop x {outside,inside text,inside binary message} x compression on/off), 13 stream templates (extended 16/64-bit lengths, close payloads with free code and reason, fragmented text with free octets, ping inside a fragmented message), feeding whole / octet-wise / one cut at every position; the endpoint's validator replaced by the NVX cffi wrapper over the kernel contract model (nvx/ units); fragmented text with an empty final / middle fragment",
     "thorough": "free octets per stream <= 9, all templates x both roles x both fail modes, every 1-cut and octet-wise split",
 }
 EXPECT_COVERS = ["validator:nvx-wrapper", "t:incomplete", "t:pv", "t:ip", "t:close", "ev:msg", "ev:ping", "ev:pong", "mode:drop", "mode:handshake"]
